@@ -9,6 +9,7 @@ for id in "$@"; do
     case $f in
       known_findings.json) tools/merge_kf.py x-$id ${DROPPED:-}; git add $f;;
       lean/Main.lean) tools/merge_main.py x-$id; git add $f;;
+      bin/props.py) tools/merge_both.py $f; python3 -c "import sys; sys.path.insert(0,'/verif/bin'); import props" && git add $f;;
       *) echo "UNRESOLVED: $f";;
     esac
   done
